@@ -103,7 +103,17 @@ pub fn run(args: &Args) -> Report {
             if s < 3 {
                 // split e into trace/coset exponents at random
                 let cbits = rng.range(0, e as u64) as u32;
-                let doms = StarkDomains::new(Felt::from(e - cbits), Felt::from(cbits));
+                let doms = match catch(|| StarkDomains::new(Felt::from(e - cbits), Felt::from(cbits))) {
+                    Ok(d) => d,
+                    Err(p) => {
+                        rep.violation("C10|domains-panicked", &format!("StarkDomains::new({}, {cbits}) panicked {}:{} {}", e - cbits, p.file, p.line, p.msg), json!({"log_domain": e, "log_n_cosets": cbits}));
+                        continue;
+                    }
+                };
+                if doms.eval_domain_size != Felt::from(bound) {
+                    rep.violation("C10|wrong-domain-size", "the evaluation domain the indices are mapped into does not have 2^(t+c) points", json!({"log_domain": e, "log_n_cosets": cbits, "eval_domain_size": hex(&doms.eval_domain_size)}));
+                    continue;
+                }
                 let w = root_of_unity(e);
                 let mut idx: Vec<u128> = want.iter().take(6).cloned().collect();
                 idx.extend([0u128, bound - 1, bound / 2]);
